@@ -337,6 +337,8 @@ def _two_day(prog: Program, res: Result):
         raise AnalysisError(f"{q}: expected one straight path")
     f = finals[0]
     apps = [e for e in f.events if e.kind == "APPEND"]
+    if not apps:
+        raise AnalysisError(f"{q}: the loop appending the response of each hour was not found")
     if len(apps) != 1 or not isinstance(apps[0].data[1], Rat):
         res.violation("R09.4", "two-day-not-analysable", prog.loc(fi, fi.node), q, f"the two-day response is not a well-formed element-wise expression: {vkey(apps[0].data[1])[:120] if apps else 'no append'}")
         return
